@@ -164,25 +164,25 @@ def main(tier, seed):
     t0 = time.time()
     depth = 5 if tier == "quick" else 6
     hs = R.histories(depth)
-    # plus the disabled words that keep the autonomous / test selection bit set (quick: to 4 words, thorough: to 5)
-    hs = hs + [h for h in R.histories(4 if tier == "quick" else 5, alphabet="datxef", boot="datxef") if ("e" in h or "f" in h)]
+    # plus the disabled words that keep the autonomous / test selection bit set (to 4 words)
+    hs = hs + [h for h in R.histories(4, alphabet="datxef", boot="datxef") if ("e" in h or "f" in h)]
     # plus long histories over every two-word alphabet (repeated periods, long alternations)
     seen_h = set(hs)
-    hs = hs + [h for h in R.long_histories(8 if tier == "quick" else 10) if h not in seen_h]
+    hs = hs + [h for h in R.long_histories(8 if tier == "quick" else 9) if h not in seen_h]
     # ... and, for the first two layouts only, every history up to 6 (thorough 7) words over each three-word alphabet
     seen_h = set(hs)
     hs3 = [h for h in R.long_histories(6 if tier == "quick" else 7, pairs=("dtx", "dat", "dax", "atx")) if h not in seen_h]
     items = []
     L = layouts(tier)
-    short = R.histories(5)
+    short = R.histories(4)
     for li, lay in enumerate(L):
-        hh = (hs + (hs3 if li < 2 else [])) if li < 5 else short  # sixth layout and generated permutation layouts: four-word histories to depth 5
+        hh = (hs + (hs3 if li < 2 else [])) if li < 5 else short  # sixth layout and generated permutation layouts: four-word histories to depth 4
         for i in range(0, len(hh), 40):
             items.append(dict(layout=lay, histories=hh[i:i + 40], seed=seed))
     res = core.Result()
     for d in core.parallel("mc.props.c06", "work", items, seed=seed):
         res.merge(d)
-    res.bounds.update(three_word_history_depth=6 if tier == "quick" else 7, two_word_history_depth=8 if tier == "quick" else 10, history_depth=depth, layouts=len(L), histories_per_layout=len(hs))
+    res.bounds.update(three_word_history_depth=6 if tier == "quick" else 7, two_word_history_depth=8 if tier == "quick" else 9, history_depth=depth, layouts=len(L), histories_per_layout=len(hs))
     rule = (
         "every driver-station history up to the stated depth (boot word + one word per iteration, including direct switches between "
         "enabled modes, then endCompetition) for every layout, run through the real startCompetition(); lifecycle monitors on the callback log: "
